@@ -35,6 +35,7 @@ type Action struct {
 
 // Park is a managed goroutine blocked at a park point, waiting for the controller.
 type Park struct {
+	GID    int64 // goroutine that is parked
 	Kind   string
 	Key    string
 	Data   interface{}
@@ -108,7 +109,7 @@ func (c *Ctl) Yield(kind, key string, data interface{}) (*Park, Action) {
 	if atomic.LoadInt32(&c.aborting) != 0 {
 		return nil, Action{Kind: "abort"}
 	}
-	p := &Park{Kind: kind, Key: key, Data: data, resume: make(chan Action, 1)}
+	p := &Park{Kind: kind, Key: key, Data: data, resume: make(chan Action, 1), GID: curGID()}
 	c.reports <- report{park: p, at: c.Now()}
 	return p, <-p.resume
 }
@@ -119,7 +120,7 @@ func (c *Ctl) YieldOr(kind, key string, data interface{}, done <-chan struct{}) 
 	if atomic.LoadInt32(&c.aborting) != 0 {
 		return Action{Kind: "abort"}, true
 	}
-	p := &Park{Kind: kind, Key: key, Data: data, resume: make(chan Action, 1)}
+	p := &Park{Kind: kind, Key: key, Data: data, resume: make(chan Action, 1), GID: curGID()}
 	c.reports <- report{park: p, at: c.Now()}
 	select {
 	case a := <-p.resume:
